@@ -175,12 +175,71 @@ func (ks *keyset) text(cls, kind string, rng *rand.Rand) string {
 			return k[:i+j] + "\u212a" + k[i+j+1:]
 		}
 		return k[:i] + "\u212a" + k[i+1:]
+	case "pad_bits":
+		// a key line corrupted so that its checksum is still right: the last data character carries one key bit and
+		// four padding bits that must be zero; here one of them is set and the checksum recomputed
+		if repad(key(0), 0) != key(0) {
+			vk.Infra("the harness's bech32 encoder does not reproduce %q", key(0))
+		}
+		return repad(key(0), 1+rng.Intn(15))
 	case "nul":
 		return key(0) + "\x00"
 	case "bom":
 		return "\xef\xbb\xbf" + key(0)
 	}
 	panic("class " + cls)
+}
+
+const bech32Charset = "qpzry9x8gf2tvdw0s3jn54khce6mua7l"
+
+func bech32Polymod(values []byte) uint32 {
+	gen := []uint32{0x3b6a57b2, 0x26508e6d, 0x1ea119fa, 0x3d4233dd, 0x2a1462b3}
+	chk := uint32(1)
+	for _, v := range values {
+		top := chk >> 25
+		chk = (chk&0x1ffffff)<<5 ^ uint32(v)
+		for i := 0; i < 5; i++ {
+			if (top>>uint(i))&1 == 1 {
+				chk ^= gen[i]
+			}
+		}
+	}
+	return chk
+}
+
+// repad rewrites a native key string: the last data group gets low bits set (bits&15, never 0) and the six checksum
+// characters are recomputed, in the string's own case.
+func repad(k string, bits int) string {
+	upper := k == strings.ToUpper(k)
+	l := strings.ToLower(k)
+	sep := strings.LastIndex(l, "1")
+	hrp, data := l[:sep], l[sep+1:len(l)-6]
+	g := make([]byte, len(data))
+	for i := range data {
+		g[i] = byte(strings.IndexByte(bech32Charset, data[i]))
+	}
+	g[len(g)-1] |= byte(bits & 15)
+	var v []byte
+	for _, c := range hrp {
+		v = append(v, byte(c>>5))
+	}
+	v = append(v, 0)
+	for _, c := range hrp {
+		v = append(v, byte(c&31))
+	}
+	v = append(v, g...)
+	pm := bech32Polymod(append(v, 0, 0, 0, 0, 0, 0)) ^ 1
+	out := hrp + "1"
+	for _, x := range g {
+		out += string(bech32Charset[x])
+	}
+	for i := 0; i < 6; i++ {
+		out += string(bech32Charset[(pm>>uint(5*(5-i)))&31])
+	}
+	if upper {
+		out = strings.ToUpper(out)
+	}
+	return out
 }
 
 func termText(t string) string {
@@ -499,7 +558,7 @@ func gen(run *vk.Run, what, c string) []fcase {
 	return out
 }
 
-var badAll = []string{"kelvin", "case_data", "subst1", "truncated", "lead_ws", "trail_ws", "wrong_case", "other_kind", "two_keys", "ws_comment", "ws_only", "cr_only", "key_hash", "key_hash_c", "sep_lost", "sep_gone", "nul", "bom"}
+var badAll = []string{"kelvin", "pad_bits", "case_data", "subst1", "truncated", "lead_ws", "trail_ws", "wrong_case", "other_kind", "two_keys", "ws_comment", "ws_only", "cr_only", "key_hash", "key_hash_c", "sep_lost", "sep_gone", "nul", "bom"}
 
 // Run is the C18 check.
 func Run(tier string) {
@@ -558,7 +617,7 @@ func Run(tier string) {
 	})
 	run.Add("cli_encrypted_identity_files", len(encPick))
 	// CLI recipients files with SSH and skipped lines
-	rc := gen(run, "clircp", cfg(run.Pick(2, 3), set("key1", "sshkey"), set("comment", "empty", "long_comment", "long_comment_key"), set("skip"), set("subst1", "lead_ws", "trail_ws", "other_kind", "two_keys", "ws_only", "key_hash", "wrong_case"), set("lf", "crlf", "none")))
+	rc := gen(run, "clircp", cfg(run.Pick(2, 3), set("key1", "sshkey"), set("comment", "empty", "long_comment", "long_comment_key"), set("skip"), set("subst1", "pad_bits", "lead_ws", "trail_ws", "other_kind", "two_keys", "ws_only", "key_hash", "wrong_case"), set("lf", "crlf", "none")))
 	var pick []int
 	for i := range rc {
 		if len(rc[i].Lines) <= 1 || (i+int(run.Seed))%run.Pick(7, 5) == 0 {
